@@ -11,25 +11,29 @@ def thenFailed (cond : Out) (thn : Opt) : Bool := cond == .ok && thn == .present
 def anyFailed (cond : Out) (thn : Opt) : Bool := cond == .fail || thenFailed cond thn
 
 /-- clauses of C17 violated by an observed `Txn` run -/
-def specTxn (cond : Out) (thn rb : Opt) (r : Result) : List String :=
+def specTxn (cond : Out) (thn rb : Opt) (r : Result) (sl : Slow := .none) : List String :=
   (if r.panicked then ["crash"] else []) ++
   (if countStep .cond r.calls == 1 then [] else ["cond-once"]) ++
   (if countStep .thn r.calls == (if cond == .ok && thn != .absent then 1 else 0) then [] else ["then-iff-cond-ok"]) ++
   (if countStep .rollback r.calls == (if anyFailed cond thn && rb != .absent then 1 else 0) then [] else ["rollback-once-iff-failed"]) ++
   (if r.calls.all (fun c => c.step != .rollback || c.byCond == some (cond == .fail)) then [] else ["rollback-told-cond"]) ++
   (if r.ret == (if cond == .fail then .condErr else if thenFailed cond thn then .thenErr else .nil) then [] else ["returns-first-failure"]) ++
-  (if r.calls.all (fun c => c.step != .rollback || (!c.cancelledAtEntry && !c.cancelledAtExit)) then [] else ["rollback-ctx-live"]) ++
+  -- the rollback's context is live when the rollback starts (whatever the caller did and however long the
+  -- steps took: its ttl budget starts then) and stays live unless the rollback itself overruns ttl
+  (if r.calls.all (fun c => c.step != .rollback || (!c.cancelledAtEntry && c.cancelledAtExit == (sl == .rollback))) then [] else ["rollback-ctx-live"]) ++
   (if r.calls.map (·.step) == ((r.calls.filter (·.step == .cond)) ++ (r.calls.filter (·.step == .thn)) ++ (r.calls.filter (·.step == .rollback))).map (·.step)
    then [] else ["step-order"])
 
 /-- clauses violated by an observed `PCR` run (user-level closures) -/
-def specPcr (prepare : Out) (commit rb : Opt) (r : Result) : List String :=
+def specPcr (prepare : Out) (commit rb : Opt) (r : Result) (sl : Slow := .none) : List String :=
   (if r.panicked && rb != .absent then ["crash"] else []) ++
   (if countStep .cond r.calls == 1 then [] else ["cond-once"]) ++
   (if countStep .thn r.calls == (if prepare == .ok && commit != .absent then 1 else 0) then [] else ["then-iff-cond-ok"]) ++
   (if countStep .rollback r.calls == (if thenFailed prepare commit && rb != .absent then 1 else 0) then [] else ["pcr-rollback-iff-commit-failed"]) ++
   (if r.ret == (if prepare == .fail then .condErr else if thenFailed prepare commit then .thenErr else .nil) then [] else ["returns-first-failure"]) ++
-  (if r.calls.all (fun c => c.step != .rollback || (!c.cancelledAtEntry && !c.cancelledAtExit)) then [] else ["rollback-ctx-live"])
+  -- the rollback's context is live when the rollback starts (whatever the caller did and however long the
+  -- steps took: its ttl budget starts then) and stays live unless the rollback itself overruns ttl
+  (if r.calls.all (fun c => c.step != .rollback || (!c.cancelledAtEntry && c.cancelledAtExit == (sl == .rollback))) then [] else ["rollback-ctx-live"])
 
 end Eru.Txn
 
@@ -43,6 +47,14 @@ instance decForallOut {p : Out → Prop} [DecidablePred p] : Decidable (∀ o, p
 instance decForallOpt {p : Opt → Prop} [DecidablePred p] : Decidable (∀ o, p o) :=
   decidable_of_iff (p .absent ∧ ∀ o, p (.present o))
     ⟨fun h o => by cases o; exact h.1; exact h.2 _, fun h => ⟨h _, fun _ => h _⟩⟩
+
+instance decForallSlow {p : Slow → Prop} [DecidablePred p] : Decidable (∀ c, p c) :=
+  decidable_of_iff (∀ c ∈ Slow.all, p c)
+    ⟨fun h c => h c (by cases c <;> simp [Slow.all]), fun h c _ => h c⟩
+
+/-- clause of the tracing id: every step sees the caller's tracing value iff the caller's context carries one -/
+def specTrace (traced : Bool) (saw : List Bool) : List String :=
+  if saw.all (· == traced) then [] else ["tracing-inherited"]
 
 instance decForallCancel {p : Cancel → Prop} [DecidablePred p] : Decidable (∀ c, p c) :=
   decidable_of_iff (∀ c ∈ Cancel.all, p c)
